@@ -3,12 +3,12 @@ import os
 from . import common as C
 
 MANIFEST = dict(
-   technique="Lean 4 proof (toJS transcribed from jsonschema/to.go is a validity-preserving homomorphism from the gozod schema fragment to Draft 2020-12 keywords, on an explicit decidable Representable fragment; Lazy on top of it) + a go/ast translator regenerating the converter's dispatch / constant tables (Gen/ToJsonCases.lean) with `decide` proofs over the whole tables + structure fingerprints of the 65 transcribed Go functions + differential correspondence: model document = real ToJSONSchema output, model verdicts = real Parse verdicts, and an independent validator (kaptinlin/jsonschema) judging the real document on the same instances",
-   text="c07_equiv_partial / c07_sound / c07_complete: for every Representable schema and every in-scope JSON instance, the instance validates against the emitted document iff Parse accepts it (strip-mode objects: the returned value validates / a validating input is accepted); c07_wellformed: the emitted document is well formed and contains no dangling reference; c07_history_equiv / _sound / _complete / _stable: the same holds for the document of every call of every sequence of ToJSONSchema calls (any option sets, any schemas converted before), and two calls on the same (options, schema) give the same document. Outside Representable each excluded class has a witness theorem and a replayed concrete instance (known findings). c07_lazy_equiv_partial / _sound / _complete / _wellformed: the same for Lazy schemas whose inner schema validateLazy actually consults (witness_lazy_typed_inner_unvalidated: for every other inner schema Lazy validates nothing). c07_codes_covered / c07_cases_partition / c07_modelled_branches / c07_unmodelled_gap / c07_range_defaults_* / c07_bag_keywords / c07_option_tests: over the tables regenerated from jsonschema/to.go and core/constants.go, every type code has one clause in doConvert, each clause of a modelled code is the one toJS transcribes, the unmodelled codes that produce a document are exactly the listed 27, the numeric range defaults and the Bag-key table are the model's.",
-   note="PARTIAL: holds on the Representable fragment only (see notes/C07.md for the excluded classes, each a demonstrated defect of the pinned tree). Lazy is modelled at the top of a schema only and non-recursive; discriminated unions, string formats, Default/Prefault, Map, Set, Struct, File, Pipe/Transform are not modelled (the list is a checked fact: c07_unmodelled_gap); user regexes come from a five-entry table with hand-written meanings; registry IDs and reused:'ref' documents are compared after inlining the emitted $ref nodes (the raw document is what the independent validator judges). Instances: ASCII strings, numbers that are multiples of 1/4 below 2^51. Trusted: Lean kernel; the hand-written jsValid (cross-checked on every generated case against kaptinlin/jsonschema on the real document); the Go harness, schema-directed embedding and comparer. The model is validated on generated cases, not for all inputs.",
+   technique="Lean 4 proof (toJS transcribed from jsonschema/to.go is a validity-preserving homomorphism from the gozod schema fragment to Draft 2020-12 keywords, on an explicit decidable Representable fragment; on top of it Lazy, objects with a Partial/Required call history, Map, a recursive-schema family, and a model of the converter's $defs/$ref bookkeeping on instance graphs) + a go/ast translator regenerating the converter's dispatch / constant tables (Gen/ToJsonCases.lean) with `decide` proofs over the whole tables + structure fingerprints of the 72 transcribed Go functions + differential correspondence: model document = real ToJSONSchema output, model verdicts = real Parse verdicts, model $defs names / $ref targets = the real document's (Refs.convertTop executed on the instance graph of every real call), and an independent validator (kaptinlin/jsonschema) judging the real document on the same instances",
+   text="c07_equiv_partial / c07_sound / c07_complete: for every Representable schema and every in-scope JSON instance, the instance validates against the emitted document iff Parse accepts it (strip-mode objects: the returned value validates / a validating input is accepted); c07_x_sound / c07_x_complete: the same at the top for Lazy schemas whose inner schema validateLazy consults (witness_lazy_typed_inner_unvalidated: for every other inner schema Lazy validates nothing), for objects after any history of Partial(keys) / Required(keys) calls (ObjSt.step / fieldOpt transcribe Partial, Required, isFieldOptional; fieldOpt_* state the documented meaning for every history; eqvShapeG: properties + required = the field loop for any shared rule) and for Map (mapOf_equiv); c07_rec_equiv: for the recursive family V = Union([leaf, Slice(Lazy -> V)]) under a root / object-field / slice wrapper the document (reference to V) and Parse agree on instances of any depth, by induction on the instance; c07_refs_resolve: for every instance graph (sharing, cycles through Lazy, registry IDs), option set and root, every $ref the converter writes names a key of the $defs attached to the root; c07_wellformed / c07_wellformed_values: the emitted document's schema arrays are non-empty, multipleOf > 0, required and properties keys are duplicate-free, no keyword outside the vocabulary; c07_history_*: the same for the document of every call of every sequence of ToJSONSchema calls. Outside Representable each excluded class has a witness theorem and a replayed concrete instance (known findings); the converters before the fixes landed in this round (792c820 object optionality, 39b1e2e map key schema, 16f278d lazy reference to a non-root target) are kept as legacy definitions with witness theorems (toDocLegacy / toDocL / validTL, erase_same, c07_legacy_*). c07_codes_covered / c07_cases_partition / c07_modelled_branches / c07_unmodelled_gap / c07_range_defaults_* / c07_bag_keywords / c07_option_tests: over the tables regenerated from jsonschema/to.go and core/constants.go.",
+   note="PARTIAL: holds on the Representable fragment only (see notes/C07.md for the excluded classes, each a demonstrated defect of the pinned tree). Lazy / objects with a call history / Map are modelled at the top of a schema only (nested objects carry the plain Partial() flag); recursion through Lazy is modelled for one schema family; the schema types of c07_unmodelled_gap (string formats, discriminated union, Default/Prefault, Set, Struct, File, Pipe/Transform, ...) have no model: a fixed set of such schemas is converted in every run and judged by the independent validator on the implementation alone (udoc/uinst ops). $ref by NAME is not in the keyword AST (shared with C11): that every emitted name is defined is proved about Refs.convertTop, which the driver executes against every real document; three self-referential schemas are converted in a child process (a pointer-cyclic document / unbounded lazy resolution is a fatal stack overflow). User regexes come from a five-entry table with hand-written meanings. Instances: ASCII strings, numbers that are multiples of 1/4 below 2^51. Trusted: Lean kernel; the hand-written jsValid (cross-checked on every generated case against kaptinlin/jsonschema on the real document); the Go harness (schema-directed embedding, instance-graph extraction: which children each converter visits is derived from the AST) and comparer. The model is validated on generated cases, not for all inputs.",
    design="DESIGN.md §5 C07")
 
-MODULES = ["Gozod.Proofs.C07", "Gozod.Proofs.C07Lazy", "Gozod.Proofs.C07Refs", "Gozod.Proofs.C07Rec", "Gozod.Proofs.C07Cases"]
+MODULES = ["Gozod.Proofs.C07", "Gozod.Proofs.C07Lazy", "Gozod.Proofs.C07Refs", "Gozod.Proofs.C07Rec", "Gozod.Proofs.C07Wf", "Gozod.Proofs.C07Cases"]
 GEN = os.path.join(C.LEAN, "Gozod", "Gen", "ToJsonCases.lean")
 THEOREMS = [
     "Gozod.C07.c07_equiv_partial", "Gozod.C07.c07_pres", "Gozod.C07.c07_sound", "Gozod.C07.c07_complete",
@@ -37,6 +37,8 @@ THEOREMS = [
     # recursive schemas whose Lazy cycle does not close at the root (Model/JsonSchemaRec.lean)
     "Gozod.C07.validVF_eq", "Gozod.C07.c07_rec_equiv", "Gozod.C07.c07_rec_sound", "Gozod.C07.c07_rec_complete", "Gozod.C07.c07_rec_root_legacy",
     "Gozod.C07.witness_lazy_ref_root_field", "Gozod.C07.witness_lazy_ref_root_slice",
+    # metaschema constraints on keyword values (Model/JsonSchemaWf.lean)
+    "Gozod.C07.xwf", "Gozod.C07.c07_wellformed_values", "Gozod.C07.mul_pos_fold", "Gozod.C07.nodup_requiredKeys",
     # over the tables regenerated from jsonschema/to.go + core/constants.go (Gen/ToJsonCases.lean)
     "Gozod.C07.c07_codes_covered", "Gozod.C07.c07_cases_partition", "Gozod.C07.c07_modelled_branches", "Gozod.C07.c07_tail_is_applyBag",
     "Gozod.C07.c07_unmodelled_gap", "Gozod.C07.c07_unmodelled_rest", "Gozod.C07.c07_default_unrepresentable",
@@ -166,7 +168,7 @@ def run(res):
         terr = translate(res)
         if terr:
             C.tie_broken(res, "translator C07 (jsonschema/to.go -> Gen/ToJsonCases.lean)", terr)
-            ok, detail = C.prove(res, MODULES[:4], [t for t in THEOREMS if t not in CASES_THEOREMS])   # everything but C07Cases (over the regenerated tables)
+            ok, detail = C.prove(res, MODULES[:5], [t for t in THEOREMS if t not in CASES_THEOREMS])   # everything but C07Cases (over the regenerated tables)
         else:
             ok, detail = C.prove(res, MODULES, THEOREMS)
     if not ok:
